@@ -36,6 +36,8 @@ EXPLANATION = (
   ' (FIN-regex) each pattern of the time-expression, length, colour and parameter parsers, applied the way its use sites apply it, accepts the well-formed values of the TTML2 syntax with the expected captures and rejects the near misses of a probe table written from the specification;'
   " (TERM-refs) merge_chained_styles takes a style reference out of the element's list before it follows it, so a cycle of style references ends instead of recursing until RecursionError;"
   + common.SHARED_CLAUSES['color'] + common.SHARED_CLAUSES['text']
+  + common.SHARED_CLAUSES['chains']
+  + common.SHARED_CLAUSES['rubykids']
 )
 RULE_TEXT = "per extraction call site x exception class, per styling step, per element class x flag, per arithmetic use of an Optional time"
 UNDECIDED = ["par/seq/dur resolution and implicit durations as values", "white-space and anonymous-span semantics", "time expression arithmetic per syntax (h/m/s/ms/f/t)"]
@@ -534,7 +536,7 @@ def check_timing_arithmetic(ctx):
 
 
 def run(ctx):
-  common.check_shared_helpers(ctx, color=True, text=True)
+  common.check_shared_helpers(ctx, color=True, text=True, chains=True, rubykids=True)
   ix = ctx.ix
   ty = Typer(ix)
   r = exc.Raises(ix, ty)
